@@ -13,14 +13,14 @@ PROP = {
     "harness": "c04",
     "driver": "c04",
     "n_quick": 6000,
-    "n_thorough": 300000,
+    "n_thorough": 250000,
     "harness_args": harness_args,
     "harness_timeout": 2400,
     "trusted": [
         "hook hsms/verif_export_frames.go: exports decodeOwnedFrame (the decode the receive path runs) and maxHSMSMsgLen",
         "hook hsmsss/verif_export_reader.go: the REAL readFrame on a transport built by newTransport with the two existing test seams (now, allocFrame) and a stub runtime that only answers Timers()",
         "simulated net.Conn with virtual time (harness/cmd/c04/reader.go): a Read never spans two segments; a read deadline fires iff the next arrival is strictly later; time advances only while a Read waits",
-        "scripted raw peer over net.Pipe (harness/fr/peer.go) for the real-time end-to-end pass (T8 = 80 ms; gaps 0-2 ms, 240 ms idle, 400 ms stall)",
+        "scripted raw peer over net.Pipe (harness/fr/peer.go) for the real-time end-to-end pass (T8 = 200 ms; in-frame gaps 0-2 ms, idle gaps 500 ms, stall 800 ms)",
     ],
     "assumptions": [
         "the receive loop is modelled one byte at a time (grouping of bytes into Reads is irrelevant except for time); virtual time advances only between segments; readFrame/readN process arrived bytes in zero time",
@@ -28,6 +28,6 @@ PROP = {
         "the SECS-II body decoder is abstract in the cell model (any function of the body bytes); the harness feeds the outcome of secs2.Decode on the same bytes as that function's value",
         "sync.Once and the shared decodeState pointer are modelled as one option cell per message family (modelled, not verified: Go memory model)",
         "a control frame with a body is well-formed at the decode entry points (property text lists only length, PType, SType); rejecting it is the live responder's job (C08)",
-        "the e2e pass judges real-time behaviour with wide margins only (idle 3xT8 must not drop; stall 5xT8 must drop)",
+        "the e2e pass judges real-time behaviour with wide margins only (idle 2.5 x T8 must not drop; stall 4 x T8 must drop; in-frame gaps are 100x below T8)",
     ],
 }
